@@ -141,6 +141,26 @@ Definition valid_name (nm : name) : bool := (length nm =? 32)%nat && forallb isx
 Definition gc (now : Z) (d : dir) : dir :=
   filter (fun kf => negb (valid_name (fst kf)) || timestamp_ok now (snd kf)) d.
 
+(* ---------- session_sid (src/session_sid.cpp): the only caller of the storage ----------
+   valid_sid: the cookie is the letter I followed by exactly 32 lower-case hex digits (char is signed: bytes >= 128 fail
+   both range tests, as they do here); load: valid_sid, storage load, and a second expiry test time(0) > timeout
+   that removes the session. *)
+Definition is_low_xdigit (c : N) : bool := ((48 <=? c) && (c <=? 57)) || ((97 <=? c) && (c <=? 102)).
+Definition valid_sid (cookie : list N) : option name :=
+  match cookie with
+  | 73 :: id => if (length id =? 32)%nat && forallb is_low_xdigit id then Some id else None
+  | _ => None
+  end.
+Definition sid_load (now : Z) (cookie : list N) (d : dir) : option (Z * list N) * dir :=
+  match valid_sid cookie with
+  | None => (None, d)
+  | Some id =>
+      match load now id d with
+      | (Some (t, data), d') => if (t <? now)%Z then (None, remove id d') else (Some (t, data), d')
+      | (None, d') => (None, d')
+      end
+  end.
+
 (* ---------- histories of one session file (None = no file) ---------- *)
 Inductive op :=
 | OSave (t : Z) (d : list N)
